@@ -34,6 +34,11 @@ func (e *vEngine) VirtualizationWait(_ context.Context, id, _ string) (*enginety
 	if e.w.fault("engine.VirtualizationWait") {
 		return nil, vErrInjected
 	}
+	if e.w.cancelCaller != nil && vBool("caller_gives_up_while_waiting") {
+		e.w.cancelCaller() // the client went away: its context ends while the workload is still running
+		e.w.cancelCaller = nil
+		vCover("caller-gave-up", true)
+	}
 	return &enginetypes.VirtualizationWaitResult{Code: int64(e.w.exitCode)}, nil
 }
 
@@ -69,7 +74,12 @@ func VerifRunAndWait(arg string) {
 		NodeFilter: &types.NodeFilter{Podname: "p1", Includes: []string{"a", "b"}},
 		Resources:  vRes(amount),
 	}
-	ids, ch, err := c.RunAndWait(context.Background(), opts, nil)
+	ctx, cancel := context.WithCancel(context.Background())
+	defer cancel()
+	if vParam(arg, "cancel", 0) == 1 {
+		w.cancelCaller = cancel
+	}
+	ids, ch, err := c.RunAndWait(ctx, opts, nil)
 	vAssert("C30/run-and-wait-accepted", err == nil && ch != nil)
 	if err != nil {
 		return
